@@ -5,18 +5,58 @@ from ..ref import P, L, to32, le
 
 REQUIRED = ['u:small-order', 'u:twist', 'u:noncanon', 'u:bit255', 'u:oncurve', 'u:random', 'dh:agree', 'conv:identity',
             'conv:u=-1', 'conv:twist', 'conv:roundtrip', 'eq:modp', 'contributory:false', 'contributory:true', 'iterated',
-            'ed2x', 'u:near-special', 'os-random', 'ed2x:mul_clamped', 'ed2x:small-order-key']
+            'ed2x', 'u:near-special', 'os-random', 'ed2x:mul_clamped', 'ed2x:small-order-key', 'u:ss-pattern']
 
 
 def B(x):
     return 'T' if x else 'F'
 
 
+_PATTERN_TARGETS = None
+
+
+def pattern_targets():
+    """torsion-free curve points whose u-coordinate has a conspicuous byte pattern (every byte 0x00 or 0x80, a single
+    non-zero byte, a small integer): shared secrets that a byte-wise predicate can get wrong.  Searched once."""
+    global _PATTERN_TARGETS
+    if _PATTERN_TARGETS is None:
+        import random as _r
+        rs = _r.Random(20261004)
+        out = []
+        # one target per byte alphabet: every non-zero byte of u is the same value (0x80, 0x01, 0xff, 0x7f, 0x40, 0x02)
+        for byte in (0x80, 0x80, 0x01, 0xff, 0x7f, 0x40, 0x02):
+            for _try in range(400):
+                v = 0
+                for _ in range(rs.randrange(1, 5)):
+                    v |= byte << (8 * rs.randrange(31))
+                if v % P in (0, 1, P - 1) or not ref.mont_on_curve(v % P) or any(v == u for u, _ in out):
+                    continue
+                m = ref.mont_to_ed(to32(v), 0)
+                if m is None or ref.aff_mul(L, m) != ref.IDENT:
+                    continue
+                out.append((v, m))
+                break
+        _PATTERN_TARGETS = out
+    return _PATTERN_TARGETS
+
+
 def x25519_calls(ctx, n):
     rng = ctx.rng
-    for c, ub in vals.montgomery_us(rng, n):
+    inputs = list(vals.montgomery_us(rng, n))
+    # peer keys chosen so that the shared secret is one of the pattern targets: peer = [k^-1 mod l] T
+    for u, m in pattern_targets():
+        kb = vals.rb(rng, 32)
+        k = le(ref.clamp(kb))
+        q = ref.aff_mul(pow(k, L - 2, L), m)
+        ub = to32(ref.ed_to_mont(q))
+        if ref.x25519(kb, ub) == to32(u):
+            inputs.append(('ss-pattern', ub, kb))
+    for item in inputs:
+        c, ub = item[0], item[1]
         r = rng.random()
-        if r < 0.2:
+        if len(item) == 3:
+            kb = item[2]
+        elif r < 0.2:
             kb = to32(rng.choice([0, 1, 7, 8, 2**254, 2**255 - 1, 2**256 - 1, 2**255, 2**254 + 8, L, 8 * L % 2**256]))
         else:
             kb = vals.rb(rng, 32)
